@@ -14,6 +14,7 @@ package main
 
 import (
 	"fmt"
+	"os"
 	"strings"
 )
 
@@ -499,7 +500,7 @@ func preInstantiate(script string) (string, bool) {
 			if _, dup := defs[b.kids[1].atom]; !dup && len(lines[li]) < 4000 {
 				defs[b.kids[1].atom] = b.kids[2]
 			}
-		} else if len(lines[li]) < 20000 {
+		} else if len(lines[li]) < 20000 && os.Getenv("ARKVC_NO_EQHINTS") == "" {
 			// equalities between a name and a compound term inside conjunctions / guarded facts
 			// (e.g. an invariant "curr == &g.nodes[curr.id]"): used as matching hints only, which
 			// is always sound because any instance of an assumption is a consequence of it
